@@ -47,6 +47,9 @@ where
     first_step: Option<Float>,
     /// Initial value of the independent variable
     x0: Float,
+    /// Requested times a few ulps beyond the end of the latest step, interpolated there.
+    /// They are reported only if the run ends there (see `into_payload`).
+    t_eval_tail: Vec<(Float, Vec<Float>)>,
     /// Flag tracking whether the first-step output has been enforced
     first_output_done: bool,
     // Pre-allocated buffers for event detection (avoid per-step allocations)
@@ -100,6 +103,7 @@ where
             yold: Vec::new(),
             first_step,
             x0,
+            t_eval_tail: Vec::new(),
             first_output_done: false,
             // Pre-allocate buffers for event detection
             g_curr_buf: vec![0.0; n_events],
@@ -150,9 +154,28 @@ where
         self.next_idx = i;
     }
 
-    /// Consumes the handler and returns all collected data.
+    /// Interpolates at the pending `t_eval` points that lie a few ulps beyond the end `x` of
+    /// the accepted step `[xold, x]` and sets them aside, without consuming them.
+    fn stash_t_eval_tail(&mut self, xold: Float, x: Float, n: usize, interpolant: &StepInterpolant<'_>) {
+        let Some(t_eval) = self.t_eval.as_ref() else {
+            return;
+        };
+        let tol = time_tol(xold, x);
+        let forward = x > xold;
+        let mut i = self.next_idx;
+        while i < t_eval.len() && (if forward { t_eval[i] <= x + tol } else { t_eval[i] >= x - tol }) {
+            let mut yi = vec![0.0; n];
+            interpolant.interpolate(t_eval[i], &mut yi);
+            self.t_eval_tail.push((t_eval[i], yi));
+            i += 1;
+        }
+    }
+
+    /// Consumes the handler and returns all collected data. `reached_end` tells whether the
+    /// integration covered the whole interval.
     pub fn into_payload(
-        self,
+        mut self,
+        reached_end: bool,
     ) -> (
         Vec<Float>,
         Vec<Vec<Float>>,
@@ -160,6 +183,14 @@ where
         Vec<Vec<Vec<Float>>>,
         Vec<(Vec<Float>, Float, Float)>,
     ) {
+        // No step followed and the run is complete: it ended within rounding of these
+        // requested times
+        if reached_end {
+            for (ti, yi) in self.t_eval_tail.drain(..) {
+                self.t.push(ti);
+                self.y.push(yi);
+            }
+        }
         (
             self.t,
             self.y,
@@ -178,6 +209,9 @@ impl<'a, F: IVP> SolOut for DefaultSolOut<'a, F> {
         y: &mut [Float],
         interpolant: Option<&StepInterpolant<'_>>,
     ) -> ControlFlag {
+        // A further step follows: it decides about the times set aside at the end of the last one
+        self.t_eval_tail.clear();
+
         // ============================================================================
         // Dense Output Collection
         // ============================================================================
@@ -406,9 +440,12 @@ impl<'a, F: IVP> SolOut for DefaultSolOut<'a, F> {
                 }
                 self.next_idx = i;
             } else {
-                // Regular accepted step: interpolate at all t_eval[i] within [xold, x] or [x, xold]
-                let tol = time_tol(xold, *x);
-                self.sample_t_eval(xold, *x, *x, tol, y.len(), interpolant.unwrap());
+                // Regular accepted step: interpolate at all t_eval[i] within [xold, x] or [x, xold].
+                // A requested time a few ulps beyond the end of this step belongs to the next
+                // step (an event may stop the run before it). It is kept aside in case this
+                // step turns out to be the last one, which may land an ulp short of xend.
+                self.sample_t_eval(xold, *x, *x, 0.0, y.len(), interpolant.unwrap());
+                self.stash_t_eval_tail(xold, *x, y.len(), interpolant.unwrap());
             }
         } else {
             // Mode 2: Solver-selected output times
